@@ -5,6 +5,7 @@ import (
 	"os"
 	"path/filepath"
 	"sort"
+	"strconv"
 	"strings"
 	"sync"
 
@@ -249,7 +250,7 @@ func (w *concWorld) Gen(seed uint64, tier string) *Plan {
 		s.ModelApply(op)
 		p.Ops = append(p.Ops, op)
 		id++
-	} else if r.P(1, 300) {
+	} else if r.P(1, deepEvery) {
 		// a deep tree: thousands of keys inserted in ascending order (a B-tree of order 3 is then 13 levels
 		// deep), and every reader runs the whole read catalogue in the same order: whatever a read-only
 		// operation prepares or caches on first meeting such a depth - in the container or in the package -
@@ -268,8 +269,11 @@ func (w *concWorld) Gen(seed uint64, tier string) *Plan {
 		id += 2
 		var names []string
 		seen := map[string]bool{}
+		// four deep runs in five are light: only the calls that print, serialise or measure the whole structure
+		light := map[string]bool{"String": true, "ToJSON": true, "MarshalJSON": true, "Values": true, "Keys": true, "Height": true, "Size": true, "Min": true, "Max": true}
+		full := r.P(1, 5)
 		for k := 0; k < 400; k++ {
-			if n := s.GenRead(r, 0).N; !seen[n] {
+			if n := s.GenRead(r, 0).N; !seen[n] && (full || light[n]) {
 				seen[n] = true
 				names = append(names, n)
 			}
@@ -351,7 +355,13 @@ func (w *concWorld) Exec(p *Plan, st *RunStats) *Violation {
 	switches, inOpSwitch, schedHash, schedTrace = 0, 0, 0, nil
 	start := stepCount
 	s := makeSubject(p.Cfg, false)
-	twin := makeSubject(p.Cfg, false)
+	// deep-tree runs (thousands of keys) do without the twin and without the per-call memory images: the race
+	// detector and the comparison with the sequential results remain
+	deep := p.Cfg.Dom > 4096
+	twin := s
+	if !deep {
+		twin = makeSubject(p.Cfg, false)
+	}
 	var other Subject // sets: the argument of Intersection/Union/Difference (never observed by the harness)
 	if familyOf(p.Cfg.Kind) == "set" {
 		other = s.Fresh()
@@ -429,13 +439,16 @@ func (w *concWorld) Exec(p *Plan, st *RunStats) *Violation {
 		}
 		pre := twinOf.ObsJSON()
 		o.cur = phaseOp
-		if post := sub.ObsJSON(); post != pre {
+		if post := pre; twinOf != sub && func() bool { post = sub.ObsJSON(); return post != pre }() {
 			o.Fail("C18", "state-changed-by-readers", "the container's observable state changed during a read phase:\n before %s\n after  %s", pre, post)
 			return false
 		}
 		img := fingerprint(sub.Real())
 		imageChanged = img != img0
 		for ri, sc := range scripts {
+			if deep && ri > 0 {
+				break // deep-tree runs: the sequential reference of the first reader only
+			}
 			for i, op := range sc {
 				op := op
 				var want string
@@ -443,7 +456,9 @@ func (w *concWorld) Exec(p *Plan, st *RunStats) *Violation {
 				if o.Failed() {
 					return false
 				}
-				if img2 := fingerprint(sub.Real()); img2 != img {
+				if deep {
+					// (no per-call image)
+				} else if img2 := fingerprint(sub.Real()); img2 != img {
 					img = img2
 					imageChanged = true
 					if obs := sub.ObsJSON(); obs != pre {
@@ -532,12 +547,16 @@ func (w *concWorld) Exec(p *Plan, st *RunStats) *Violation {
 				}
 			}
 			if len(scripts) > 0 {
-				runPhase(op, scripts)
+				// (a library panic in one of the harness's own observations - the twin, the state after the
+				// phase - is attributed like any other)
+				safely(o, op, func() { runPhase(op, scripts) })
 			}
 		} else {
 			mu.Lock()
 			safely(inert, op, func() { inert.V = nil; s.Step(op, inert) })
-			safely(inert, op, func() { inert.V = nil; twin.Step(op, inert) })
+			if twin != s {
+				safely(inert, op, func() { inert.V = nil; twin.Step(op, inert) })
+			}
 			if other != nil && op.ID%3 != 0 { // the argument set holds two thirds of the writes: overlapping, not equal
 				safely(inert, op, func() { inert.V = nil; other.Step(op, inert) })
 			}
@@ -557,3 +576,11 @@ func (w *concWorld) Exec(p *Plan, st *RunStats) *Violation {
 	}
 	return o.V
 }
+
+// deepEvery: one C18 run in deepEvery is a deep-tree run (VERIF_C18_DEEP overrides, for experiments).
+var deepEvery = func() int {
+	if v, err := strconv.Atoi(os.Getenv("VERIF_C18_DEEP")); err == nil && v > 0 {
+		return v
+	}
+	return 100
+}()
